@@ -39,6 +39,15 @@ func c12Preludes() [][]model.Op {
 	child1 := func(t int) model.Op {
 		return model.Op{K: model.OpNew, Path: model.PathMapN, Cs: ct.Of(ct.P, ct.R1), T: rel(ct.R1, t)}
 	}
+	// 34 targets with one child table each: more tables in one relation archetype than any small-size shortcut
+	// (pooled scratch slices, per-archetype fast paths) could be tuned for; filters are registered afterwards
+	var many []model.Op
+	for i := 0; i < 34; i++ {
+		many = append(many, nP)
+	}
+	for i := 0; i < 34; i++ {
+		many = append(many, child1(i))
+	}
 	return [][]model.Op{
 		{nP, nP, nP, two(0, 1), two(1, 2), two(0, 2), two(2, 0)},
 		{nP, nP, two(0, 1), two(1, 0), {K: model.OpNew, Path: model.PathMapN, Cs: ct.Of(ct.P, ct.R1), T: rel(ct.R1, 0)}, {K: model.OpRegister, F: 0}},
@@ -47,6 +56,7 @@ func c12Preludes() [][]model.Op {
 		{nP, nP, nP, two(0, 1), two(1, 2), {K: model.OpRemoveEntity, E: 3}, {K: model.OpShrink}, {K: model.OpRemoveEntity, E: 0}},
 		// relation tables grown to different capacities (capacity 1 world): recycling order after Reset shows in Stats
 		{nP, nP, nP, child1(0), child1(0), child1(0), child1(1), child1(2), child1(2)},
+		many,
 	}
 }
 
@@ -64,7 +74,7 @@ func c12Tasks() []c12Task {
 			mapReset(nil)
 			_, s1, _ := runTrace(cfg, p, nil, c12Alphabet, false)
 			less := 0
-			if pi == 2 || pi == 3 {
+			if pi == 2 || pi == 3 || pi == 5 {
 				less = 1 // long preludes that already contain the critical removals
 			}
 			for _, op1 := range s1 {
@@ -170,7 +180,7 @@ func init() {
 
 	Registry["C12"] = func(t Tier) *Check {
 		chk := &Check{ID: "C12",
-			Rule:   "histories = all histories of the relation alphabet with two relation components, batch removal, Shrink, Reset and filter registration up to depth 3 (quick) / 4 (thorough) after 2 preludes with several two-relation tables; trace = issued handles, every entity's state, iteration order of three queries, Stats() after every operation. (i) binary built with the maprange overlay (every `range` over a map in package ecs, found by type-checking the current sources, iterates in an explorer-chosen order): for every history, every single deviation (quick, and thorough at depth 4) / pair of deviations (thorough, up to depth 3) from ascending key order at every map range must leave the trace unchanged; (ii) the enumeration is sharded over 16 processes twice (different hash seeds), digest streams must agree between the two rounds and with an un-instrumented build; (iii) a second world fed the same history in the same process must produce the same trace; states = histories, non-trivial = histories in which at least one map range had >= 2 keys",
+			Rule:   "histories = all histories of the relation alphabet with two relation components, batch removal, Shrink, Reset and filter registration up to depth 3 (quick) / 4 (thorough) after 6 preludes (several two-relation tables, targets removed / tables freed by Shrink beforehand, tables of different capacities, and 34 targets with one child table each, depth reduced by one); trace = issued handles, every entity's state, iteration order of three queries, Stats() after every operation. (i) binary built with the maprange overlay (every `range` over a map in package ecs, found by type-checking the current sources, iterates in an explorer-chosen order): for every history, every single deviation (quick, and thorough at depth 4) / pair of deviations (thorough, up to depth 3) from ascending key order at every map range must leave the trace unchanged; (ii) the enumeration is sharded over 16 processes twice (different hash seeds), digest streams must agree between the two rounds and with an un-instrumented build; (iii) a second world fed the same history in the same process must produce the same trace; states = histories, non-trivial = histories in which at least one map range had >= 2 keys",
 			Assume: []string{"the only sources of nondeterminism in package ecs are map iteration order and hash seeds (no goroutines, clocks or address-dependent logic); time-limited Shrink is excluded by contract"},
 		}
 		chk.Special = func(tier Tier, rep *engine.Report) error {
